@@ -153,3 +153,18 @@ Definition bogus_rejected : bool :=
     end) (fields d)) all_debiasers.
 Theorem invalid_settings_rejected : bogus_rejected = true.
 Proof. vm_compute. reflexivity. Qed.
+
+(** cross-field rejections of __attrs_post_init__ (extracted with the tests that enclose them): every
+    one is unconditional, i.e. an invalid combination is rejected whatever the other settings (window
+    mode switches in particular) are; the two documented ones are present *)
+Definition rejections_unconditional : bool :=
+  forallb (fun d => forallb (fun p => String.eqb (fst p) "") (post_init_rejections d)) all_debiasers.
+Theorem rejections_unconditional_ok : rejections_unconditional = true.
+Proof. vm_compute. reflexivity. Qed.
+Theorem isimip_rejects_missing_distribution :
+  In (""%string, "self.distribution is None and (not self.nonparametric_qm)"%string) (post_init_rejections ISIMIP).
+Proof. vm_compute. auto. Qed.
+Theorem window_step_le_length_enforced : forall d,
+  In d [LinearScaling; QuantileMapping; ScaledDistributionMapping; CDFt; ECDFM; QuantileDeltaMapping] ->
+  In (""%string, "self.running_window_step_length > self.running_window_length"%string) (post_init_rejections d).
+Proof. intros d H. cbn in H. repeat (destruct H as [<-|H]; [vm_compute; auto|]). contradiction. Qed.
